@@ -400,6 +400,18 @@ func TestVerifC03(t *testing.T) {
 				}
 			}
 		}
+		// Captive portal URIs around the option's 8-bit length (and IP literals, which the
+		// option constructor refuses): accepted => encodable and unchanged on the wire.
+		for _, n := range []int{100, 240, 246, 247, 248, 249, 250, 251, 252, 253, 254, 255, 256, 257, 300, 600} {
+			d := c03Base(false, wild)
+			d.Ifaces[0].Scalars["captive_portal"] = "https://example.com/" + strings.Repeat("a", n-len("https://example.com/"))
+			one([]string{fmt.Sprintf("captive_portal of %d bytes", n)}, d, 0)
+		}
+		for _, u := range []string{"http://[2001:db8::1]/portal", "http://192.0.2.1/", "urn:ietf:params:capport:unrestricted", "https://example.com/" + strings.Repeat("%20", 90), "relative/path", ""} {
+			d := c03Base(false, wild)
+			d.Ifaces[0].Scalars["captive_portal"] = u
+			one([]string{"captive_portal=" + u}, d, 0)
+		}
 		// Duration keys under stanza kinds that do not have them today (a version that
 		// starts to accept one must range-check it like the others).
 		for _, kind := range []string{"prefix", "route", "rdnss", "dnssl", "pref64"} {
